@@ -490,6 +490,47 @@ fn close_signal_histories(ctx: &Ctx, rng: &mut Rng, out: &mut Out, reps: usize) 
 }
 
 
+/// stream `modes03` (C03 in every serve mode): one connection; request heads - valid, malformed, merely incomplete, carried over
+/// behind a pipelined predecessor - delivered in one segment, cut in two or in small pieces (with pauses), then a probe
+pub fn gen03(ctx: &Ctx) {
+    use crate::s_connexp::cut;
+    let mut rng = Rng::new(ctx.seed, "modes03");
+    let mut out = Out::new(&ctx.dir, "modes03");
+    out.rule = "one connection against serve, serve_threaded and serve_epoll: a head that is valid / malformed at its second line / malformed in its request line, alone or carried over behind a complete \
+                pipelined request, with and without its blank line, as one segment, cut at a random point, and in pieces of 1..6 bytes with pauses; then a probe. A prefix that is already \
+                malformed is answered 400 at once in every mode, whether or not a blank line has arrived; a valid one is answered when complete. non-trivial = all".into();
+    let heads: Vec<(&str, &[u8])> = vec![
+        ("valid", b"GET /none?v HTTP/1.1\r\nHost: a\r\nx-y: z\r\n\r\n"),
+        ("bad-line", b"GET /b HTTP/1.1\r\nthis header line has no colon\r\nHost: a\r\n\r\n"),
+        ("bad-line-no-blank", b"GET /b HTTP/1.1\r\nthis header line has no colon\r\n"),
+        ("bad-request-line", b"GET /b HTTP/1.1 extra\r\nHost: a\r\n\r\n"),
+        ("bad-request-line-no-blank", b"G\x01T /b HTTP/1.1\r\nHost: a\r\n"),
+        ("bad-version-no-blank", b"GET /b HTTP/2.7\r\nHost: a\r\n"),
+    ];
+    for _ in 0..(if ctx.thorough { 6 } else { 1 }) {
+        for (label, h) in &heads {
+            for carried in [false, true] {
+                for style in [0u64, 1, 3] {
+                    // (behind a predecessor only as one segment or one cut: a pipelined client does not wait between its writes)
+                    if carried && style == 3 { continue; }
+                    let mut all: Vec<u8> = if carried { b"POST /all?first HTTP/1.1\r\nContent-Length: 3\r\n\r\nabc".to_vec() } else { vec![] };
+                    let start = all.len();
+                    all.extend_from_slice(h);
+                    let segs: Vec<Vec<u8>> = if carried && style == 1 { let c = rng.range(start as u64 + 1, all.len() as u64 - 1) as usize; vec![all[..c].to_vec(), all[c..].to_vec()] } else { cut(&mut rng, &all, style) };
+                    let mut steps: Vec<String> = segs.iter().map(|x| format!("D{}", hex(x))).collect();
+                    if carried { steps.push("R".into()); }
+                    steps.push("R".into());
+                    if *label == "valid" { steps.push(format!("D{}", hex(b"GET /none?probe HTTP/1.1\r\n\r\n"))); steps.push("R".into()); }
+                    let case = format!("P:{}", steps.join(";"));
+                    let res = run(&case);
+                    out.emit(&case, &res, &format!("{label}/{}/style{style}", if carried { "carried" } else { "alone" }), true);
+                }
+            }
+        }
+    }
+    out.finish();
+}
+
 /// stream `modes10` (C10 in every serve mode): one connection; a head of length around the limit N, delivered in two or
 /// three segments with a pause between them, then a probe
 pub fn gen10(ctx: &Ctx) {
